@@ -467,13 +467,14 @@ RULE = ("histories: n<=3, registers = random partition of a random qubit subset 
         "replayed on the real code.  seed: same script twice on fresh circuits and once more on the same circuit.  parallel: "
         "parallel_execution / parallel_circuits_execution / parallel_parametrized_execution with processes 1..3, 2..4 tasks, under a 90 s timeout.  "
         "repeated: two shot-by-shot executions (collapsing measurement) of one circuit object, all views of both results judged against their own samples.  "
-        "clifford: two executions of one circuit object on the Clifford backend from different basis stabiliser states / shot counts, read in random order.")
+        "clifford: two executions of one circuit object on the Clifford backend from different basis stabiliser states / shot counts, read in random order.  "
+        "bitflip_two_results: two results of one circuit object with measurement bit-flip noise, all views of both in random order, each judged against its own samples / own noiseless draws.")
 
 
 def budgets(tier):
     if tier == "thorough":
-        return {"hist": 3000, "seed": 200, "par": 90, "rep": 150, "cliff": 120}
-    return {"hist": 300, "seed": 40, "par": 18, "rep": 30, "cliff": 24}
+        return {"hist": 3000, "seed": 200, "par": 90, "rep": 150, "cliff": 120, "flip": 150}
+    return {"hist": 300, "seed": 40, "par": 18, "rep": 30, "cliff": 24, "flip": 30}
 
 
 def main(run):
@@ -494,6 +495,7 @@ def main(run):
     part_parallel(run, be, b["par"])
     part_repeated_sharing(run, be, b["rep"])
     part_clifford(run, be, b["cliff"])
+    c03.part_bitflip(run, None, be, b["flip"], tag="bitflip_two_results", executions=2)
     run.refuted = list(dict.fromkeys(run.refuted))
     return run.finish(rule=RULE)
 
@@ -514,6 +516,8 @@ def replay(run, data):
         part_seed(run, be, rp["case"] + 1)
     elif part == "parallel":
         part_parallel(run, be, rp["case"] + 1)
+    elif part == "bitflip_two_results":
+        c03.part_bitflip(run, None, be, 0, tag="bitflip_two_results", executions=2, only=[rp["case"]])
     elif part == "clifford":
         part_clifford(run, be, rp["case"] + 1)
     elif part == "repeated_sharing":
